@@ -11,6 +11,7 @@ initial bootstrap:
   P <i> <k> part <verdict> <orph> <rr>        … and a partial data-file write of step k+1
   C <i> <k> <c> <verdict> <orph> <rr>         … and c complete records of the append of step k+1
   T <i> <k> <verdict>                         … and a torn record
+  L <i> same|lost                             the acknowledged state after statement i, with the last (un-fsynced) rename lost
 verdict ::= pre | post | pre=post | other | open-fails:<reason>
 orph ::= 0 | 1   (an unreferenced delete-vector file survives recovery)
 rr ::= same | diff | -   (every crash inside that recovery, recovered again, gives the same content)
@@ -134,8 +135,12 @@ def answer (lineIn : String) : List String :=
           | op :: rest =>
             let steps := psteps s op
             let s' := step s op
+            let lost := match recover (loseRename s'.disk) with
+              | .ok s2 => if sortRows (abs s2.disk s2.mem) == sortRows (abs s'.disk s'.mem) then "same" else "lost"
+              | .error e => s!"open-fails:{e}"
             [s!"S {i} {";".intercalate (steps.map stepStr)}"] ++
-              crashLines i s.disk steps (some (abs s.disk s.mem)) (abs s'.disk s'.mem) ++ go s' (i + 1) rest
+              crashLines i s.disk steps (some (abs s.disk s.mem)) (abs s'.disk s'.mem) ++
+              [s!"L {i} {lost}"] ++ go s' (i + 1) rest
         first ++ go s0 0 ops ++ ["E"]
   | _ => ["bad-request", "E"]
 
